@@ -20,11 +20,48 @@ const ufMark = "c10.(*run).uf"
 
 var genericRe = regexp.MustCompile(`\[[^\]]*\]`)
 
-func hasUserFrame(g kit.Goroutine) bool { return strings.Contains(g.Stack, ufMark) }
+// hasUserFrame: a user function is still RUNNING on this goroutine. A user
+// function that terminated by panicking stays on the stack below runtime.gopanic
+// while core/mr's deferred recover handler runs: that one has returned.
+func hasUserFrame(g kit.Goroutine) bool {
+	i := strings.Index(g.Stack, ufMark)
+	if i < 0 {
+		return false
+	}
+	j := strings.Index(g.Stack, "runtime.gopanic")
+	return !(j >= 0 && j < i)
+}
 
 func anyUserFrame(gs []kit.Goroutine) bool {
 	for _, g := range gs {
 		if hasUserFrame(g) {
+			return true
+		}
+	}
+	return false
+}
+
+// heldByHarness: a user function is running and is parked in harness code (a
+// hold / the generator's send), i.e. it waits for something the harness
+// controls. A user function parked INSIDE a core/mr call (Writer.Write, cancel)
+// is being blocked by core/mr, not by the harness.
+func heldByHarness(g kit.Goroutine) bool {
+	if !hasUserFrame(g) {
+		return false
+	}
+	for _, ln := range strings.Split(g.Stack, "\n") {
+		if ln == "" || strings.HasPrefix(ln, "{") || strings.HasPrefix(ln, "labels:") ||
+			strings.HasPrefix(ln, "runtime.") || strings.HasPrefix(ln, "sync.") || strings.HasPrefix(ln, "runtime/") {
+			continue
+		}
+		return strings.HasPrefix(ln, "verifharness/c10.")
+	}
+	return false
+}
+
+func anyHeldByHarness(gs []kit.Goroutine) bool {
+	for _, g := range gs {
+		if heldByHarness(g) {
 			return true
 		}
 	}
@@ -43,7 +80,14 @@ func fingerprintOf(gs []kit.Goroutine) string {
 // frames returns the first n non-runtime function names (generic instantiation
 // brackets and package paths stripped) of a labelled stack.
 func frames(stack string, n int) string {
-	return genericRe.ReplaceAllString(kit.TopFrames(stack, n), "")
+	var keep []string
+	for _, ln := range strings.Split(stack, "\n") {
+		if strings.HasPrefix(ln, "{") || strings.HasPrefix(ln, "labels:") { // the label line of the profile block
+			continue
+		}
+		keep = append(keep, ln)
+	}
+	return genericRe.ReplaceAllString(kit.TopFrames(strings.Join(keep, "\n"), n), "")
 }
 
 var knownLeaked = map[int]bool{} // goroutine ids already reported as leaked by earlier runs of this process
@@ -111,7 +155,9 @@ func markLeaked() {
 
 // leakClass derives the violation key of a leak from the stuck stacks and from
 // what happened in the run: one defect = one class.
-func (r *run) leakClass(gs []kit.Goroutine, o outcome) string {
+// panicWriteOrigin tells which goroutine of the call is parked in onceChan.write
+// (the unbuffered hand-over of a recovered panic to the caller), if any.
+func (r *run) panicWriteOrigin(gs []kit.Goroutine) string {
 	origin := ""
 	for _, g := range gs {
 		if !strings.Contains(g.Stack, "onceChan).write") {
@@ -133,7 +179,13 @@ func (r *run) leakClass(gs []kit.Goroutine, o outcome) string {
 			origin = "other"
 		}
 	}
-	if origin != "" {
+	return origin
+}
+
+// leakClass derives the violation key of a leak from the stuck stacks and from
+// what happened in the run: one defect = one class.
+func (r *run) leakClass(gs []kit.Goroutine) string {
+	if origin := r.panicWriteOrigin(gs); origin != "" {
 		return "C10/leak/panic-write-blocked/" + origin
 	}
 	var tops []string
@@ -142,6 +194,21 @@ func (r *run) leakClass(gs []kit.Goroutine, o outcome) string {
 	}
 	sort.Strings(tops)
 	return "C10/leak/" + kit.KeyPart(tops[0])
+}
+
+// deadlockClass: where the caller is parked, and what it is (transitively) waiting for.
+func (r *run) deadlockClass(gs []kit.Goroutine) string {
+	caller := "unknown"
+	for _, g := range gs {
+		if strings.Contains(g.Stack, "c10.(*run).invoke") {
+			caller = frames(g.Stack, 1)
+		}
+	}
+	key := "C10/deadlock/caller-in-" + kit.KeyPart(caller)
+	if origin := r.panicWriteOrigin(gs); origin != "" {
+		key += "/" + origin + "-write-blocked"
+	}
+	return key
 }
 
 func (r *run) panicsCopy() []panicEv {
